@@ -37,6 +37,9 @@ pub fn account_writes(w: &mut World, phase: &str) -> Result<(), Violation> {
 pub fn process_writes(w: &mut World, writes: &[WriteRec], before: Option<&Parsed>, phase: &str) -> Result<(), Violation> {
     let g = w.geo.clone();
     w.session_writes += writes.len() as u64;
+    if w.cfg.oracles.crash_log {
+        w.crash.writes.extend_from_slice(writes);
+    }
     let fsinfo_lo = u64::from(g.fsinfo_sector) * u64::from(g.bps);
     for wr in writes {
         let in_fsinfo = g.fat_bits == 32 && wr.off >= fsinfo_lo && wr.off + u64::from(wr.len) <= fsinfo_lo + 512;
@@ -559,6 +562,33 @@ pub fn post_step(w: &mut World, s: &mut Session, ctx: &PostCtx) -> Result<(), Vi
         w.last_parsed = None;
     }
     process_writes(w, &writes, Some(&ctx.before), "call")?;
+    if o.crash_log {
+        let widx = w.crash.writes.len();
+        match ctx.op {
+            Op::Flush { .. } | Op::CloseFile { .. } if ctx.out.res.is_ok() => {
+                if let Some(n) = ctx.out.file_node {
+                    let epoch = w.disk.borrow().epoch;
+                    w.crash.flush_points.push(FlushPoint { widx, epoch, node: n, path: w.model.path_of(n).join("/"), content: w.model.nodes[n].content.clone(), step: w.step_no });
+                }
+            }
+            Op::Write { .. } | Op::Truncate { .. } | Op::SetTime { .. } => {
+                if let Some(n) = ctx.out.file_node {
+                    // tracked only while unmodified: the modification starts with the first write of this call
+                    w.crash.untrack.push((widx - writes.len(), n));
+                }
+            }
+            Op::Remove { .. } | Op::Rename { .. } => {
+                if let Some(v) = ctx.out.victim {
+                    let mut stack = vec![v];
+                    while let Some(n) = stack.pop() {
+                        w.crash.untrack.push((widx - writes.len(), n));
+                        stack.extend(w.model.nodes[n].children.iter().copied());
+                    }
+                }
+            }
+            _ => {}
+        }
+    }
     if o.offsets {
         offsets_check(w, ctx)?;
     }
